@@ -132,3 +132,51 @@ func VerifC03(n0, pool, faults, crashes, shape, unparseable int) {
 	w.auditPrefix()
 	verifReach("resumed")
 }
+
+// VerifC04Rounds: several rounds in the SAME instance (no restart in between), each with a symbolic
+// number of submissions (0..pool) of the given shape, from a pre-state of n0 leaves; the storage
+// monitors (checkBacked at every publication, immutability, discards) stay on, so that in-memory
+// right-edge state carried from one round to the next (e.g. across an exact tile boundary) is
+// compared with the independent rendering of the leaf sequence at every publication.
+func VerifC04Rounds(n0, rounds, pool, faults, shape int) {
+	w := newWorld(faults, 0)
+	w.clockMode = 1
+	l, inst := w.bootstrap(n0)
+	ctx := context.Background()
+	w.armed = true
+	count := 0
+	for r := 0; r < rounds && l != nil && !inst.dead; r++ {
+		k := verifConcretize(verifChoice("submissions", pool+1))
+		for i := 0; i < k; i++ {
+			// distinct lengths: no two submissions can be equal (deduplication is C07's subject);
+			// the first entry of a round has the requested shape, the others are plain certificates
+			count++
+			if i == 0 && shape != 0 {
+				e := verifPending("e", 3+count, map[int]int{1: 0, 2: 1, 3: 2}[shape], shape == 1)
+				l.addLeafToPool(ctx, e, false)
+			} else {
+				l.addLeafToPool(ctx, verifPending("e", 3+count, 0, false), false)
+			}
+		}
+		verifTraceInt("ROUND entries", int64(k))
+		if err := l.sequence(ctx); err != nil {
+			verifReach("fatal")
+			verifAssert(errors.Is(err, errFatal), "sequence returns only fatal errors")
+			l = nil
+		}
+	}
+	w.armed = false
+	if l == nil {
+		l, _ = w.restart()
+		if l == nil {
+			verifFail("with no further faults the log reloads")
+			return
+		}
+	}
+	last := w.lockHist[len(w.lockHist)-1]
+	if pub := w.published(); pub != nil && pub.n == last.n {
+		w.checkBacked(&last)
+	}
+	w.auditPrefix()
+	verifReach("done")
+}
